@@ -26,7 +26,7 @@ pub fn dump_logs(args: &[String], seed: u64) -> i32 {
     // --no-steer plans as a build without hooks would, so that cfg-on and
     // cfg-off builds execute the same specs (hook transparency test)
     let hooks = hooks_compiled() && !args.iter().any(|a| a == "--no-steer");
-    let corpus = match Corpus::load(4) {
+    let corpus = match Corpus::load(4, tier == Tier::Thorough) {
         Ok(c) => c,
         Err(e) => {
             eprintln!("corpus: {}", e);
@@ -103,7 +103,7 @@ pub fn fidelity(n: usize, reps: usize, seed: u64) {
     use crate::prng::{fnv64, hmix, SplitMix64};
     use rust_dsymbols::delaney3d::pseudo_toroidal_cover;
     use rust_dsymbols::simplify::simplify;
-    let corpus = Corpus::load(4).expect("corpus");
+    let corpus = Corpus::load(4, false).expect("corpus");
     println!("real_entropy={}", cfg!(feature = "real_entropy"));
     for (i, e) in corpus.k0.iter().take(n).enumerate() {
         let s = Sym::parse(&e.text).unwrap();
